@@ -46,7 +46,7 @@ pub open spec fn pfold(s: (World, bool), data: Seq<char>) -> (World, bool)
 pub open spec fn pview<'a, T: ParserListener + Send + 'a>(p: Parser<'a, T>) -> (World, bool) { (world_of(p), p.taking_plain_text) }
 
 /// feeding a then b is feeding a + b  (chunking independence of character input, C02)
-pub proof fn lemma_pfold_concat(s: (World, bool), a: Seq<char>, b: Seq<char>)
+pub proof fn lemma_pfold_concat(s: (World, bool), a: Seq<char>, b: Seq<char>) //#lemma: C02
     ensures pfold(pfold(s, a), b) == pfold(s, a + b),
     decreases a.len(),
 {
@@ -59,7 +59,7 @@ pub proof fn lemma_pfold_concat(s: (World, bool), a: Seq<char>, b: Seq<char>)
     }
 }
 /// appending one character at the end of what has been folded
-pub proof fn lemma_pfold_push(s: (World, bool), a: Seq<char>, c: char)
+pub proof fn lemma_pfold_push(s: (World, bool), a: Seq<char>, c: char) //#lemma: C02
     ensures pfold(s, a.push(c)) == pstep(pfold(s, a), c),
 {
     lemma_pfold_concat(s, a, seq![c]);
@@ -72,7 +72,7 @@ pub proof fn lemma_pfold_push(s: (World, bool), a: Seq<char>, c: char)
     }
 }
 /// an empty chunk is a no-op
-pub proof fn lemma_pfold_empty(s: (World, bool))
+pub proof fn lemma_pfold_empty(s: (World, bool)) //#lemma: C02
     ensures pfold(s, Seq::<char>::empty()) == s,
 {
 }
@@ -175,7 +175,7 @@ pub fn bytes_map_collect<F: Fn(&u8) -> char>(s: &[u8], f: F) -> (r: String)
 }
 
 /// byte chunking (C02, byte half): feeding chunk a then chunk b leaves the decoder and the parser exactly where feeding a + b does
-pub proof fn lemma_bytes_chunking(d: DecState, s: (World, bool), a: Seq<u8>, b: Seq<u8>)
+pub proof fn lemma_bytes_chunking(d: DecState, s: (World, bool), a: Seq<u8>, b: Seq<u8>) //#lemma: C02
     ensures
         dec_next(dec_next(d, a), b) == dec_next(d, a + b),
         pfold(pfold(s, dec_out(d, a)), dec_out(dec_next(d, a), b)) == pfold(s, dec_out(d, a + b)),
